@@ -7,6 +7,7 @@ import RV.Driver.C19
 import RV.Driver.C20
 import RV.Driver.C07
 import RV.Driver.C15
+import RV.Driver.C17
 open RV.Driver
 
 def dispatch (prop op : String) (args : List String) (impl : String) : Verdict :=
@@ -27,6 +28,8 @@ def dispatch (prop op : String) (args : List String) (impl : String) : Verdict :
   | "C06" => c06 op args impl
   | "C15" => c15 op args impl
   | "C16" => c16 op args impl
+  | "C17" => c17 op args impl
+  | "C18" => c18 op args impl
   | _ => bad s!"prop:{prop}"
 
 /-- a line is `id \t prop \t op \t arg… \t => \t impl` -/
